@@ -450,6 +450,10 @@ def congruence_assumptions(b1: Built, b2: Built):
     def walk(x1, x2):
         if isinstance(x1, _OpaqueMixin) and isinstance(x2, _OpaqueMixin):
             cs.append(related_meta(x1, x2))
+            # the relation between children is symmetric (it is the
+            # relation being characterised; A.3): comparing (c2, c1) instead
+            # of (c1, c2) is not a different answer
+            cs.append(R(x1._u, x2._u) == R(x2._u, x1._u))
     for name, (kind, v1) in b1.fields.items():
         v2 = b2.fields[name][1]
         if kind in (CHILD, CONTAINER, FUNCTION):
